@@ -21,8 +21,8 @@ def gen(run):
     a18 = pl.alphabet18(P)
     maxl = 3 if run.tier == "quick" else 4
     ex = [pl.case(P, c, "ds") for c in pl.files(a19, maxl)]
-    ex += [pl.case(P, c, "ds") for c in pl.files(pl.adjacent(P), 3)]      # rejected candidate directly followed by the next one
-    ex += [pl.case(P, c, "ds") for c in pl.files(pl.percent(P), 3)]       # printf directives in lines that are kept
+    ex += [pl.case(P, c, "ds") for c in pl.files(pl.adjacent(P), maxl - 1)]      # rejected candidate directly followed by the next one
+    ex += [pl.case(P, c, "ds") for c in pl.files(pl.percent(P), maxl - 1)]       # printf directives in lines that are kept
     ex += [pl.case(P, c, "ed") for c in pl.files(pl.percent(P), 2)]
     ex += [pl.case(P, c, "ed") for c in pl.files(a18, 2 if run.tier == "quick" else 3)]
     # a path that does not mention the library name: nothing but the alien line counts as a mention, so most files are rewritten
@@ -50,7 +50,7 @@ def check(run):
     nv += pl.report(run, PROP, r2, "exhaustive", plain, KINDS) if not nv else 0
     mism = r1["mismatch"] + r2["mismatch"]
     if not ok and nv == 0:
-        run.violation("proof:%s" % failed, "proof", "proof obligation no longer checks: %s\n%s" % (failed, log[-1500:]), {"theorem": failed, "coq_log": log[-3000:]})
+        run.violation("proof:%s" % failed, "proof", "proof obligation no longer checks: %s | %s\n%s" % (failed, " ; ".join(n for n in run.notes if n.startswith("translator") or n.startswith("skeleton")) or "no translator note", log[-1500:]), {"theorem": failed, "coq_log": log[-3000:]})
     if mism and nv == 0:
         i, c, m, im = mism[0]
         run.violation("corr:disable", "correspondence", "model and snoopyctl differ on %d cases although spec_C19_ok holds on the outputs; first: %s" % (len(mism), pl.show(c)),
